@@ -15,7 +15,8 @@ CHECKS = {
          "arithmetic: clamp, r and k reductions mod L, S = (r + k a) mod L, dom2 bytes, determinism, entropy untouched, equality with crypto/ed25519"),
  "C03": ("4 C03", "R1: HonestAccepted invariant (S = r + h a accepted in both modes for a, r != 0) on the scaled group; R3: every produced signature verified by Verify / VerifyWithOptions "
          "(default, ZIP-215) / VerifyBatch membership (sizes 1,3,4,5,64,65,129, all positions), verdicts validated by TLC through the Verify pipeline; S < L, a != 0, r != 0 required per signature"),
- "C07": ("4 C07", "R1: dom2 injectivity / prefix-freeness and the context-length / digest-length / hash-selector outcome table checked by TLC; R2/R3: ordered pairs of 14 (variant, context) pairs "
+ "C07": ("4 C07", "R1: dom2 injectivity / prefix-freeness and the context-length / digest-length / hash-selector outcome table checked by TLC; MCDom2: the whole hashed transcript has a left inverse (variant, context, R, A, message) on every "
+         "scaled tuple, given that R is never the dom2 prefix - and the real 32-byte prefix is not a decodable point (certificate checked by TLC in exact arithmetic); control refuted; R2/R3: ordered pairs of 14 (variant, context) pairs "
          "(1-bit, length-only, trailing-zero, 254/255, cross-variant differences) signed under one and verified under the other (single, ZIP-215, batch), verdict computed by TLC from the verifier-side hash; "
          "option matrix replayed on Sign / VerifyWithOptions / VerifyBatch with refusal surface and selected variant validated against SignSpec!Outcome / Surface"),
  "C04": ("4 C04", "R1: scMinimal ladder == (S<L) for all scaled scalars + uniqueness of accepted S (and the typo mask 244 is refuted by TLC as a control); "
